@@ -523,9 +523,32 @@ def all_wrappable(table):
     return all(c.width is None and not c.no_wrap for c in table.columns)
 
 
+_WIDTH_ROWS = None
+
+
+def indep_cell_len(text):
+    """cell width of a string by a LINEAR scan of the data table rich/_cell_widths.py (the table that is translated to Lean), without
+    rich.cells: no binary search, no cache, no ASCII shortcut — so a defect in the lookup code cannot hide behind the oracle"""
+    global _WIDTH_ROWS
+    if _WIDTH_ROWS is None:
+        from rich._cell_widths import CELL_WIDTHS
+
+        _WIDTH_ROWS = [(a, b, 0 if w == -1 else w) for a, b, w in CELL_WIDTHS]
+    total = 0
+    for ch in text:
+        cp = ord(ch)
+        for a, b, w in _WIDTH_ROWS:
+            if a <= cp <= b:
+                total += w
+                break
+        else:
+            total += 1
+    return total
+
+
 def evaluate(ctx, console, table, avail, widths, lines, padded, spec, text_cells):
     """The executable statements of the C07 theorems on rich's own output (independent of the Lean model)."""
-    from rich.cells import cell_len
+    cell_len = indep_cell_len
 
     extra = table._extra_width
     ncols = len(table.columns)
